@@ -2796,19 +2796,27 @@ mmx_rule_subusl_slow (OrcCompiler *p, void *user, OrcInstruction *insn)
     orc_mmx_emit_movq (p, src0, dest);
   }
 
+  /* borrow of a - b: sign of (a>>1) - (b>>1) - (~a & b & 1) */
   orc_mmx_emit_movq (p, src1, tmp2);
   orc_mmx_emit_psrld_imm (p, 1, tmp2);
 
   orc_mmx_emit_movq (p, dest, tmp);
   orc_mmx_emit_psrld_imm (p, 1, tmp);
-  orc_mmx_emit_psubd (p, tmp, tmp2);
+  orc_mmx_emit_psubd (p, tmp2, tmp);
 
-  /* turn overflow bit into mask */
-  orc_mmx_emit_psrad_imm (p, 31, tmp2);
+  orc_mmx_emit_movq (p, dest, tmp2);
+  orc_mmx_emit_pandn (p, src1, tmp2);
+  orc_mmx_emit_pslld_imm (p, 31, tmp2);
+  orc_mmx_emit_psrld_imm (p, 31, tmp2);
+  orc_mmx_emit_psubd (p, tmp2, tmp);
 
-  /* compute the difference, then and over the mask */
+  /* turn borrow bit into mask */
+  orc_mmx_emit_psrad_imm (p, 31, tmp);
+
+  /* compute the difference, then clear it where it borrowed */
   orc_mmx_emit_psubd (p, src1, dest);
-  orc_mmx_emit_pand (p, tmp2, dest);
+  orc_mmx_emit_pandn (p, dest, tmp);
+  orc_mmx_emit_movq (p, tmp, dest);
 
 }
 
